@@ -232,13 +232,22 @@ pub fn threaded(rest: &str) -> String {
         strategy: I,
         handler: impl Fn(AeronError) + Clone + Send + 'static,
         ms: u64,
+        works: Arc<AtomicI64>,
     ) -> &'static str {
         let runner = AgentRunner::new(agent, Arc::new(strategy), Box::new(handler), "thr");
         let mut stopper = match AgentRunner::start(runner) {
             Ok(s) => s,
             Err(_) => return "StartErr",
         };
-        std::thread::sleep(Duration::from_millis(ms));
+        // let the agent thread get going: at least four duty cycles (or `ms` for a thread that has died), whatever the load
+        let t0 = std::time::Instant::now();
+        while works.load(Ordering::SeqCst) < 4 && t0.elapsed() < Duration::from_millis(ms.max(150) * 10) {
+            std::thread::sleep(Duration::from_millis(2));
+            if works.load(Ordering::SeqCst) >= 1 && t0.elapsed() >= Duration::from_millis(ms.max(150)) {
+                break;
+            }
+        }
+        std::thread::sleep(Duration::from_millis(ms.min(30)));
         let (tx, rx) = channel();
         std::thread::spawn(move || {
             let r = std::panic::catch_unwind(std::panic::AssertUnwindSafe(|| stopper.stop()));
@@ -247,11 +256,11 @@ pub fn threaded(rest: &str) -> String {
         rx.recv_timeout(Duration::from_millis(2500)).unwrap_or("StopHang")
     }
     let stop = match w[0] {
-        "sleep1" => go(agent, SleepingIdleStrategy::new(1), handler, ms),
-        "sleep20" => go(agent, SleepingIdleStrategy::new(20), handler, ms),
-        "yield" => go(agent, YieldingIdleStrategy {}, handler, ms),
-        "spin" => go(agent, BusySpinIdleStrategy::default(), handler, ms),
-        "noop" => go(agent, NoOpIdleStrategy {}, handler, ms),
+        "sleep1" => go(agent, SleepingIdleStrategy::new(1), handler, ms, works.clone()),
+        "sleep20" => go(agent, SleepingIdleStrategy::new(20), handler, ms, works.clone()),
+        "yield" => go(agent, YieldingIdleStrategy {}, handler, ms, works.clone()),
+        "spin" => go(agent, BusySpinIdleStrategy::default(), handler, ms, works.clone()),
+        "noop" => go(agent, NoOpIdleStrategy {}, handler, ms, works.clone()),
         other => {
             eprintln!("unknown case kind strategy {}", other);
             std::process::exit(3);
